@@ -21,6 +21,8 @@ CLAIM = {
          'Verus capability preconditions on extracted real text'),
  'C03': ('Deductive proof (Verus): the only bytes any handler may emit are the specified reply - header(len, -errno or 0, unique) followed by the encoding of the value the filesystem returned, with one shared definition of the entry encoding (attr flags and split timeouts included) for lookup, mknod, mkdir, symlink, link and create, and the read payload equal to the bytes the filesystem produced.',
          'Verus contracts on extracted real text, reply obligations as preconditions of the emission points'),
+ 'C15': ('Deductive proof (Verus, unbounded, sequential model of the locks) on the real text of the passthrough handle table and its users: HandleMap behaves as a map with exact effects (insert adds exactly one key; release removes exactly that handle iff it exists and belongs to the inode, else EBADF and no change; get resolves only the matching (handle, inode) pair; clear/destroy empty the table and the directory-position records); handle numbers are fresh by the invariant "all keys < counter, cookie keys are handle keys", which a fresh server satisfies and every function that writes the table preserves (the set of writers is closed by a textual scan); open/opendir/create/release/releasedir leave the table untouched under no_open/no_opendir and store or remove nothing when they fail; destroy leaves no handle, no position record and no inode but the re-imported root; a failed create may not keep an inode reference. Whole-history file-descriptor accounting (drops of File/Arc/MountFd) is NOT decided.',
+         'Verus contracts on extracted real text; data structure against an abstract map view'),
  'C17': ('Deductive proof (Verus, unbounded: any segment list, any cursor position, any byte counts) with the dirty bitmap as ghost state (the log of addresses passed to Bitmap::mark_dirty, threaded as an erased token through the real text): every writer operation on the virtio-fs transport - IoBuffers::consume / consume_for_write, VirtioFsWriter::write, write_from, write_from_at, write_all_from - appends exactly the addresses it filled (the prefix of the reply space its callback reported, for write proved of the real closure text with the raw copy abstracted by a model call); failed or refused operations, every Reader operation, split_at and commit append nothing, so request buffers and unused reply space are never marked; split writers mark through the same contract because split_at yields cursors over exactly the two address ranges.',
          'Verus contracts on extracted real text with a ghost dirty log (rule R23)'),
  'C20': ('Deductive proof (Verus, every request byte string, reply capacity and filesystem result) that the asynchronous path meets THE SAME contracts as the synchronous one: the real text of Server::async_handle_message, the ten async handlers and the async reply helpers (rule R18: async fn as fn, .await as a call) is verified against the very clauses unit `server` proves for their sync twins - reused, not copied - over one shared specification (reply_msg / want_msg and the per-opcode functions). So for every request both paths may invoke only the one operation the protocol names, with exactly the decoded arguments and the translated caller, and may emit only the specified reply bytes, at most once and never for FORGET / BATCH_FORGET; over-long messages, unknown opcodes and the 37 opcodes the async dispatcher hands to the sync handlers fall under the same clauses. FuseDevWriter::async_commit is checked against the commit model. What the specification leaves open (which error a malformed request gets) is not decided.',
@@ -40,7 +42,6 @@ NA = {
  'C09': 'interleavings of concurrent lookups/forgets: Kani has no threads; Verus would need the code rewritten with its atomic-invariant and permission types, which would be a model and not the code',
  'C10': 'overlay union semantics: ~3000 lines whose steps are Layer calls bottoming out in host syscalls, with an Arc<Mutex<..>> inode graph; no contract within reach states "lower layers never change" (about fifteen call sites reach layer mutators directly)',
  'C11': 'overlay on-disk state across restart / copy-up: oracle is a filesystem model and the on-disk state after restart; same code as C10',
- 'C15': 'observable is the process fd table and Arc/File drops behind RwLock<BTreeMap> + Mutex<HashMap>; nothing is a per-call postcondition a verifier can see',
  'C19': 'serialisation is generated by versionize_derive (proc-macro, feature off); restoration rebuilds an Arc/HashMap graph through ArcSwap stores',
 }
 PENDING = 'not yet built in this framework (under construction; see DESIGN.md section 5)'
